@@ -4,7 +4,7 @@ specifications as C12/C13 (their *Fail actions: failure value only if the alloca
 cannot-fail operations succeed, nothing leaked)."""
 import os, random
 import vlib
-from checks import c12, c13
+from checks import c04, c06, c07, c08, c12, c13, evgen
 
 SD = os.path.join(vlib.SPECS, "ds")
 
@@ -14,7 +14,7 @@ def with_fail(prog, k, mode):
     return "\n".join([lines[0], "fail %d %s" % (k, mode)] + lines[1:])
 
 
-def enumerate_faults(c, exe, base, module, cfg, tag, cap):
+def enumerate_faults(c, exe, base, module, cfg, tag, cap, sd=None, insert=None, **kw):
     """run base scenarios clean, read the number N of library allocations, then every k in 1..N, both modes"""
     execs, crashes = vlib.run_programs(exe, base, os.path.join(c.dir, tag + "base"), tag=tag, procs=8)
     if crashes:
@@ -28,12 +28,26 @@ def enumerate_faults(c, exe, base, module, cfg, tag, cap):
                 n = max(n, ev["allocs"])
         total += n
         for k in range(1, min(n, cap) + 1):
-            progs.append(with_fail(p, k, "once"))
-            progs.append(with_fail(p, k, "persist"))
+            progs.append((insert or with_fail)(p, k, "once"))
+            progs.append((insert or with_fail)(p, k, "persist"))
     c.cov.setdefault("fault_points", {})[tag] = {"scenarios": len(base), "allocations": total, "faulted_runs": len(progs)}
-    vlib.conformance(c, exe, base + progs, SD, module, cfg, tag, procs=8, shards=8,
-                     nontrivial=lambda ex: any(e.get("inj", 0) > 0 for e in ex))
+    vlib.conformance(c, exe, base + progs, sd or SD, module, cfg, tag, procs=10, shards=10,
+                     nontrivial=lambda ex: any(e.get("inj", 0) > 0 for e in ex), **kw)
     return len(progs)
+
+
+def known_http(prog, ex, line):
+    """F11 (open): fatal allocation failure inside network_connect's retry leaves the HTTP request unreleasable (2 blocks)"""
+    if not vlib.known_findings("C14"):
+        return None
+    if not (0 < line <= len(ex)) or ex[line - 1].get("e") != "exit" or ex[line - 1].get("live") != 2:
+        return None
+    if any(e.get("e") == "http_cb" for e in ex):
+        return None
+    for i, e in enumerate(ex):
+        if e.get("e") == "run_ret" and e.get("rc") != 0 and e.get("inj", 0) > 0 and i >= 2 and ex[i - 1].get("e") == "close" and ex[i - 2].get("e") == "connect_call":
+            return "F11 HTTP request leaked (2 allocations) after a fatal allocation failure inside network_connect's attempt on a later address"
+    return None
 
 
 def main(c):
@@ -64,6 +78,29 @@ def main(c):
     base_t.append(c13.tq_prog([("tadd", i + 1, (i * 7) % 40) for i in range(64)] + [("tgetptr", 60, 0)] * 52 + [("tadd", 100, 1), ("tgetmin", 0, 0)]))
     enumerate_faults(c, exe_heap, base_h, "PtrHeapTrace", "PtrHeapTrace.cfg", "heap", cap)
     enumerate_faults(c, exe_heap, base_t, "TimerQueueTrace", "TimerQueueTrace.cfg", "tq", cap)
+    # ---- event loop: registrations from outside and inside callbacks; a failed registration may be made again ----
+    def ev_insert(p, k, mode):
+        return p.replace("main\n", "main\n  fail %d %s\n" % (k, mode), 1)
+    base_ev = []
+    for _ in range(c.pick(25, 250)):
+        P = evgen.random_program(rnd)
+        P.main = [x for op in P.main for x in ([op, op] if op.startswith("reg_") else [op])]      # every registration is tried twice
+        base_ev.append(P.text())
+    enumerate_faults(c, c04.build(c), base_ev, "EventsTrace", "EventsTrace.cfg", "ev", c.pick(12, 60), sd=c04.SD, insert=ev_insert)
+    # ---- asynchronous I/O ----
+    base_net = [c06.random_program(rnd) for _ in range(c.pick(12, 120))] + [c06.accept_program(rnd) for _ in range(c.pick(6, 60))]
+    base_net += [c06.connect_program({"plan": rnd.choice([["O"], ["F", "O"], ["R", "P"], ["F", "F"], ["P", "N"]]), "timeo": rnd.random() < 0.5, "cancel": 0}) for _ in range(c.pick(8, 60))]
+    enumerate_faults(c, c06.build(c), base_net, "NetTrace", "NetTrace.cfg", "net", c.pick(10, 40), sd=c06.SD, insert=ev_insert)
+    # ---- buffered reader / writer ----
+    base_nb = [c07.reader_program(rnd) for _ in range(c.pick(8, 80))] + [c07.writer_program(rnd, zero=True) for _ in range(c.pick(8, 80))]
+    enumerate_faults(c, c07.build(c), base_nb, "NbTrace", "NbTrace.cfg", "nb", c.pick(10, 40), sd=c07.SD, insert=ev_insert)
+    # ---- HTTP requests ----
+    def http_insert(p, k, mode):
+        return p.replace("\nend\n", "\nfail %d %s\nend\n" % (k, mode))
+    base_http = [c08.wellformed(c08.simple_response(rnd, i), rnd, i) for i in range(c.pick(6, 60))] + [c08.hostile(rnd, i) for i in range(c.pick(4, 40))]
+    # the allocation count of an HTTP request is in its end event; scenarios with several MB of body are left out
+    base_http = [p for p in base_http if len(p) < 200000]
+    enumerate_faults(c, c08.build(c), base_http, "HttpTrace", "HttpTrace.cfg", "http", c.pick(14, 60), sd=c08.SD, insert=http_insert, run_timeout=1200, tv_timeout=1500, known=known_http)
     c.cov["rule"] = ("fault enumeration: for every base scenario the k-th allocation made by library code fails, for every k the scenario reaches "
                      "(capped per scenario, see fault_points), once and persistently from k on; the scenario then continues (retries), releases "
                      "everything and reports the wrapper's live set; each trace is validated by TLC against the abstract specification "
